@@ -60,6 +60,30 @@ def _harness_out(ctx, path, kind):
     return summ[0]
 
 
+def replay_reduced(ctx):
+    """the flags family (every flag byte x payload class x encoding) and a few random bodies on the real tracer carriers;
+    used by C20: the wire tracer is one of the places where an encoding name must mean the same algorithm and where a
+    malformed compressed message must not change what a later one decodes to"""
+    binp = ctx.go_test_bin("internal/tracer", ["c14"])
+    scnp, outp = os.path.join(ctx.build, "c14r.scn"), os.path.join(ctx.build, "c14r.out")
+    base = 0
+    for cfg, sim in (("Gen_BodyTrace_flags_q.cfg", None), ("Gen_BodyTrace_sim.cfg", 1500 if ctx.quick else 10000)):
+        if sim:
+            g = ctx.tlc("Gen_BodyTrace", cfg, workers=1, simulate="num=%d" % sim, depth=90, timeout=2400)
+        else:
+            g = ctx.tlc("Gen_BodyTrace", cfg, timeout=2400, heap="12g")
+        lines = list(dict.fromkeys(_scn_lines(g)))
+        if not lines:
+            raise vf.Machinery("generator %s produced no behaviour" % cfg)
+        with open(scnp, "w") as fh:
+            fh.write("\n".join(lines) + "\n")
+        ctx.run_harness(binp, "TestVerifC14Replay", env=dict(VERIF_SCN=scnp, VERIF_OUT=outp, VERIF_IDX_BASE=base, VERIF_ALL_ENCS=1), timeout=3000)
+        sm = _harness_out(ctx, outp, "replay")
+        ctx.cov["evaluations"] += sm["evaluations"]
+        ctx.cov["traces_validated_against_impl"] += sm["scenarios"]
+        base += len(lines)
+
+
 def run(ctx):
     q = ctx.quick
     binp = ctx.go_test_bin("internal/tracer", ["c14"])
@@ -145,6 +169,17 @@ def run(ctx):
         ctx.log("later phases aborted after reproduced violations: %s" % str(e)[:300])
 
     ctx.cov["exhaustive"] = False
+    if not ctx.replay:
+        # the same message tracer (dataTracer) also runs inside the HTTP/2 connection tracer, which drives it differently
+        # (per stream, flushed at stream close from either side): H2Trace.tla's generated exchanges - bodies cut anywhere in
+        # the envelopes - replayed through TracingHTTP2Conn, reduced bounds
+        import sys
+        sys.path.insert(0, os.path.dirname(os.path.abspath(__file__)))
+        import c15
+        b15 = ctx.go_test_bin("internal/tracer", ["c15"])
+        small = c15.scenarios(ctx.tlc("Gen_H2Trace", "Gen_H2Trace_small.cfg", workers=8, timeout=1800))
+        sim0 = c15.scenarios(ctx.tlc("Gen_H2Trace", "Gen_H2Trace_sim0.cfg", workers=4, simulate="num=%d" % (300 if ctx.quick else 2000), depth=120, timeout=3000))
+        c15.replay(ctx, b15, small + sim0, "c14conn", 2)
     ctx.cov["rule"] = (
         "A behaviour = (envelope sequence with flags/declared length/payload class, truncation point, way of ending, side, "
         "header combination, splitting into calls, calls after the end, other-side interleaving) together with the events "
